@@ -4,9 +4,10 @@ D : Key(obj, attr) -> Val   own-dictionary entry, `ABSENT` when there is none
 Base : Key -> Val           what attribute resolution finds further up the MRO
 R(D,k) = D[k] if D[k] != ABSENT else Base(k)      (ABSENT again when nothing is found)
 
-Assumed (checked by enumeration over the real binding specs, see contracts/c13):
-no patched key inherits its value from another patched key, so Base is fixed.
 getattr(o,a,default) reads R; setattr writes D; delattr needs an own entry.
+Base is whatever resolution finds above the object; nothing is assumed about inheritance between patched
+objects: the contracts demand that the own dictionary D is exactly restored (an earlier revision assumed that
+no patched key inherits from another patched key - false on the real specs, see DESIGN 11.3 D26).
 """
 from __future__ import annotations
 
